@@ -42,9 +42,14 @@ Definition mstep (st : mstate) (i : nat) : mstate :=
     if ins then
       let b' := if Nat.ltb (i - m_last st) 1024 then alower b (m_last st) (i - m_last st) else b in
       {| m_b := b'; m_j := m_j st; m_instr := ins; m_start := m_start st; m_last := m_last st |}
+    else if negb (Nat.eqb (m_start st) 0) then
+      (* a string closes after white space was dropped: the pending part is moved now (repair of K135), so that m_last
+         refers to the data where it is *)
+      let cnt := (S i - m_start st)%nat in
+      {| m_b := acopy b (m_j st) (m_start st) cnt; m_j := (m_j st + cnt)%nat; m_instr := ins; m_start := S i;
+         m_last := (m_j st + cnt)%nat |}
     else
-      {| m_b := b; m_j := m_j st; m_instr := ins; m_start := m_start st;
-         m_last := (m_j st + (S i - m_start st))%nat |}
+      {| m_b := b; m_j := m_j st; m_instr := ins; m_start := m_start st; m_last := S i |}
   else st.
 
 Fixpoint mloop (st : mstate) (i n : nat) : mstate :=
